@@ -117,6 +117,13 @@ Theorem C01_kernel_set_literal_brace_first : forall a es,
   exists rest, pp (rw_set_literal (ECall BSet [EList (a :: es)])) = 123%N :: rest.
 Proof. exact RewriteFacts.C01_kernel_set_literal_brace_first. Qed.
 Print Assumptions C01_kernel_set_literal_brace_first.
+(** the same for invert-boolean-check, where no field keeps them apart (finding kf_invert_fstring_braces): dropping `not `
+    in front of a comparison whose leftmost operand is a display leaves `{` as the first character: `not {1} == v0` *)
+Definition w_invert_brace : expr := ENot false (ECmp false (ESet [EConst (CInt 1)]) [(Eq, EName 0%N)]).
+Example C01_kernel_invert_brace_first :
+  hd 0%N (pp w_invert_brace) = 110%N /\
+  hd 0%N (pp (invert_file pinned_invert w_invert_brace)) = 123%N /\ hd 0%N (pp (invert_file repaired_invert w_invert_brace)) = 123%N.
+Proof. vm_compute. repeat split. Qed.
 
 (** * Whole-tree kernel theorems and their composition with the lifting theorem (Proofs/WholeTree.v, Proofs/LiftWholeTree.v)
     [wfc] = [wf] + "operands of comparisons and of // are atoms or parenthesised" (what a parser yields there).  For every
@@ -159,3 +166,16 @@ Proof. split; reflexivity. Qed.
 Example C01_wfc_example : wfc (EFloorDiv (EConst (CInt 2)) (ECmp true (EName 1%N) [(Eq, EList [])])) = true /\
   wfc (EFloorDiv (EConst (CInt 2)) (ECmp false (EName 1%N) [(Eq, EList [])])) = false.
 Proof. split; reflexivity. Qed.
+
+(** str-concat-in-sequence-literals (implicitly concatenated strings inside a display become separate elements):
+    well-formedness is kept on every expression, in both source forms; composed with the run *)
+From CM Require Import Proofs.StrConcatFacts.
+Theorem C01_kernel_str_concat_wf_all : forall cfg e, wfc e = true -> wfc (rw_str_concat cfg e) = true.
+Proof. exact str_concat_wfc. Qed.
+Print Assumptions C01_kernel_str_concat_wf_all.
+Theorem C01_str_concat_run_parses : C01_kernel_run_statement (rw_str_concat str_concat_cfg_v) run_tables_v.
+Proof. exact (C01_kernel_run_all _ (str_concat_wfc str_concat_cfg_v) run_tables_v). Qed.
+Print Assumptions C01_str_concat_run_parses.
+Example C01_kernel_str_concat_example :
+  wfc w_sc_nested = true /\ rw_str_concat str_concat_cfg_v w_sc_nested <> w_sc_nested.
+Proof. vm_compute. split; [reflexivity|discriminate]. Qed.
